@@ -173,10 +173,10 @@ impl Prop for Growth {
     fn strategy(&self, _tier: Tier) -> BoxedStrategy<Case> {
         let per = |f: Format| {
             let input = match f {
-                Format::Fasta => prop_oneof![5 => gen::fasta_doc_with(8, 6), 2 => gen::fasta_doc_with(40, 3), 1 => gen::byte_soup(f)].boxed(),
-                Format::Fastq => prop_oneof![4 => gen::fastq_valid_doc(8), 2 => gen::fastq_valid_doc(40), 2 => gen::fastq_doc_with(8, false), 1 => gen::byte_soup(f)].boxed(),
+                Format::Fasta => prop_oneof![10 => gen::fasta_doc_with(8, 6), 4 => gen::fasta_doc_with(40, 3), 2 => gen::byte_soup(f), 2 => gen::long_read_doc(f), 1 => gen::big_input(f)].boxed(),
+                Format::Fastq => prop_oneof![8 => gen::fastq_valid_doc(8), 4 => gen::fastq_valid_doc(40), 4 => gen::fastq_doc_with(8, false), 2 => gen::byte_soup(f), 2 => gen::long_read_doc(f), 1 => gen::big_input(f)].boxed(),
             };
-            (gen::input_and_cap(f, input), gen::policy_any(), gen::script(), any::<bool>())
+            (gen::input_and_cap(f, input), prop_oneof![6 => gen::policy_any(), 1 => gen::policy_big_steps()], gen::script(), any::<bool>())
                 .prop_flat_map(move |((input, cap), policy, script, with_exact)| {
                     (Just((input, cap, policy, script)), vec(op(with_exact), 1..24))
                 })
@@ -369,9 +369,64 @@ pub struct LongCase {
     pub slack: u8,
     pub chunks: Vec<u16>,
     pub sets: bool,
+    /// added to seq_len (0 or 200..3000): capacities in the hundreds / thousands
+    #[serde(default)]
+    pub big: u16,
+    /// > 0: every k-th record is tiny (0..2 bases), so that long records start a few bytes into the buffer
+    #[serde(default)]
+    pub tiny_every: u8,
+    /// FASTA: blank lines in front of the first record
+    #[serde(default)]
+    pub lead_blank: u8,
 }
 
 pub struct LongStreams;
+
+/// `long_doc` with tiny records mixed in and leading blank lines
+pub fn long_doc_mixed(format: Format, n: usize, seq_len: usize, jitter: usize, crlf: bool, tiny_every: usize, lead_blank: usize, width: usize) -> Vec<u8> {
+    let t: &[u8] = if crlf { b"\r\n" } else { b"\n" };
+    let mut v = Vec::new();
+    if format == Format::Fasta {
+        for _ in 0..lead_blank {
+            v.extend_from_slice(t);
+        }
+    }
+    for i in 0..n {
+        let l = if tiny_every > 0 && i % tiny_every == tiny_every - 1 { i % 3 } else { seq_len + if jitter > 0 { (i * 7) % (jitter + 1) } else { 0 } };
+        let one = long_doc_rec(format, i, l, t, width.max(1));
+        v.extend_from_slice(&one);
+    }
+    v
+}
+
+fn long_doc_rec(format: Format, i: usize, l: usize, t: &[u8], width: usize) -> Vec<u8> {
+    let mut v = Vec::new();
+    let id = format!("r{}", i);
+    match format {
+        Format::Fasta => {
+            v.push(b'>');
+            v.extend_from_slice(id.as_bytes());
+            v.extend_from_slice(t);
+            let seq: Vec<u8> = (0..l).map(|k| b"ACGT"[(i + k) % 4]).collect();
+            for line in seq.chunks(width) {
+                v.extend_from_slice(line);
+                v.extend_from_slice(t);
+            }
+        }
+        Format::Fastq => {
+            v.push(b'@');
+            v.extend_from_slice(id.as_bytes());
+            v.extend_from_slice(t);
+            v.extend((0..l).map(|k| b"ACGT"[(i + k) % 4]));
+            v.extend_from_slice(t);
+            v.push(b'+');
+            v.extend_from_slice(t);
+            v.extend(std::iter::repeat(b'I').take(l));
+            v.extend_from_slice(t);
+        }
+    }
+    v
+}
 
 pub fn long_doc(format: Format, n: usize, seq_len: usize, jitter: usize, crlf: bool) -> Vec<u8> {
     let t: &[u8] = if crlf { b"\r\n" } else { b"\n" };
@@ -410,16 +465,33 @@ impl Prop for LongStreams {
     type Case = LongCase;
     fn strategy(&self, _tier: Tier) -> BoxedStrategy<LongCase> {
         boxed(
-            (gen::format(), 200u16..3000, 0u8..30, 0u8..6, any::<bool>(), 0u8..40, gen::chunks(), any::<bool>()).prop_map(
-                |(format, n_records, seq_len, jitter, crlf, slack, chunks, sets)| LongCase { format, n_records, seq_len, jitter, crlf, slack, chunks, sets },
+            (gen::format(), 200u16..3000, 0u8..30, 0u8..6, any::<bool>(), 0u8..40, gen::chunks(), any::<bool>(), (prop_oneof![2 => Just(0u16), 1 => 200u16..600, 1 => 600u16..3000], prop_oneof![2 => Just(0u8), 1 => 2u8..6], 0u8..3)).prop_map(
+                |(format, n_records, seq_len, jitter, crlf, slack, chunks, sets, (big, tiny_every, lead_blank))| LongCase { format, n_records, seq_len, jitter, crlf, slack, chunks, sets, big, tiny_every, lead_blank },
             ),
         )
     }
     fn check(&self, c: &LongCase, ctx: &mut Ctx) -> CheckResult {
         let f = fmt_name(c.format);
-        let input = long_doc(c.format, c.n_records as usize, c.seq_len as usize, c.jitter as usize, c.crlf);
+        let mixed = c.big > 0 || c.tiny_every > 0 || c.lead_blank > 0;
+        let seq_len = c.seq_len as usize + c.big as usize;
+        // about 300 kB at most
+        let n_records = if c.big > 0 { (c.n_records as usize).min(300_000 / (2 * seq_len + 10)).max(8) } else { c.n_records as usize };
+        let input = if mixed {
+            long_doc_mixed(c.format, n_records, seq_len, c.jitter as usize, c.crlf, c.tiny_every as usize, c.lead_blank as usize, 61)
+        } else {
+            long_doc(c.format, n_records, seq_len, c.jitter as usize, c.crlf)
+        };
         let m = Model::build(c.format, &input);
-        ensure!(m.recs.len() == c.n_records as usize && m.term == Terminal::End, "harness/long-doc", "harness: long document does not model as {} records", c.n_records);
+        ensure!(m.recs.len() == n_records && m.term == Terminal::End, "harness/long-doc", "harness: long document does not model as {} records", n_records);
+        if c.big > 0 {
+            ctx.class("capacity in the hundreds / thousands (long records)");
+        }
+        if c.tiny_every > 0 {
+            ctx.class("tiny records between the long ones");
+        }
+        if c.lead_blank > 0 && c.format == Format::Fasta {
+            ctx.class("blank lines in front of the first record");
+        }
         let max_e = m.recs.iter().map(|r| r.extent).max().unwrap_or(0);
         let cap = (max_e + 1 + c.slack as usize).max(3);
         let script = Script { chunks: c.chunks.clone(), ..Default::default() };
@@ -435,7 +507,7 @@ impl Prop for LongStreams {
             asked == 0,
             format!("{}/growth-although-every-record-fits", f),
             "{} records, largest extent {}, capacity {}: the policy was asked {} time(s): {:?}",
-            c.n_records,
+            n_records,
             max_e,
             cap,
             asked,
@@ -445,7 +517,7 @@ impl Prop for LongStreams {
     }
 }
 
-pub const RULE: &str = "sub-check reader-vs-recording-policy: (format, document with record extents aimed at the capacity (+-3) or soup, capacity, any policy kind incl. refusing and Add(k), chunk script, history of next / records() / read_record_set / [read_record_set_exact] / set_policy) -> (1) every grow_to argument equals the capacity adopted last (initial capacity first) and no source read asks for more bytes than the adopted size; (2) histories without exact reads: every request is justified by the extent of the record being parsed (FASTA: extent >= capacity; FASTQ: > for four terminated lines, >= for a group running to end of input); (3) a call returns BufferLimit iff the policy refused during that call; without exact reads the strict cursor model is followed THROUGH refusals (a refused call leaves the cursor where it is, so a policy installed afterwards lets the stream continue undisturbed), with exact reads up to the first refusal; (4) a replaced policy is never asked again. Sub-check long-streams: 200..3000 small records, capacity = largest extent + 1 + slack: the outcome equals the model and the policy is never asked. Sub-check policy-arithmetic: StdPolicy / DoubleUntil / DoubleUntilLimited against the documented formulas for sizes around the thresholds and up to 2^40. Non-trivial = >= 1 growth request or > 20 source reads without growth (reader), every case (others). Distinct = hash(case).";
+pub const RULE: &str = "sub-check reader-vs-recording-policy: (format, document with record extents aimed at the capacity (+-3) or soup, 1 in 7: documents with records of 100..3000 bytes and tiny records in between, capacity up to 4096, any policy kind incl. refusing and Add(k), 1 in 7: policies with steps of thousands of bytes (Add(1000..20000), DoubleUntil / DoubleUntilLimited / RefuseAbove in the thousands), chunk script, history of next / records() / read_record_set / [read_record_set_exact] / set_policy) -> (1) every grow_to argument equals the capacity adopted last (initial capacity first) and no source read asks for more bytes than the adopted size; (2) histories without exact reads: every request is justified by the extent of the record being parsed (FASTA: extent >= capacity; FASTQ: > for four terminated lines, >= for a group running to end of input); (3) a call returns BufferLimit iff the policy refused during that call; without exact reads the strict cursor model is followed THROUGH refusals (a refused call leaves the cursor where it is, so a policy installed afterwards lets the stream continue undisturbed), with exact reads up to the first refusal; (4) a replaced policy is never asked again. Sub-check long-streams: 200..3000 small records, or 8..700 records of 200..3000 bases with tiny records mixed in and (FASTA) leading blank lines, capacity = largest extent + 1 + slack (so up to several thousand bytes): the outcome equals the model and the policy is never asked. Sub-check policy-arithmetic: StdPolicy / DoubleUntil / DoubleUntilLimited against the documented formulas for sizes around the thresholds and up to 2^40. Non-trivial = >= 1 growth request or > 20 source reads without growth (reader), every case (others). Distinct = hash(case).";
 
 pub fn run(tier: Tier) -> i32 {
     let mut run = Run::new("C09", tier, "exploration");
